@@ -97,8 +97,10 @@ check('C19', 'store', 'exploration', STORE_TECH,
       'seam, integer generator, user-defined IdGenerator subclass and plain iterator; interleaved peek/next/next() calls. Every '
       'attribute of the new instance equals the reference (typed default, then positional, then keyword); every defaulted id equals '
       'the next value of the reference generator and is never null; peeking never advances. Attribute lists are edited and the '
-      'schema grows between creations.', STORE_NOTE + ' The uuid route owns the entropy at the uuid.uuid4 seam: a library that '
-      'drew its entropy elsewhere would have to be given a new seam before this check can judge it.', 'DESIGN.md §4 C19, §12.17')
+      'schema grows between creations.', STORE_NOTE + ' The uuid route owns the entropy at the uuid.uuid4 seam; a library whose '
+      'generator does not draw from that seam is judged in an opaque mode (ids as the library hands them out: never null, never '
+      'repeated, also after the injected event "the application re-seeds the global PRNG"), in which runs are not replayable by '
+      'seed alone.', 'DESIGN.md §4 C19, §12.17')
 
 check('C03', 'delivery', 'exploration',
       'deterministic simulation: seeded delivery plans (reordering, partitioning, routing through string / file object / file / '
